@@ -29,7 +29,7 @@ def is_sched_obligation(name):
 
 
 def run(ctx, module, weights, tags, n_quick=250, len_quick=60, n_thorough=4000, len_thorough=200, extra_histories=None,
-        release_too=False, lean_extra=(), shape=True, lean=True, cov_key=None):
+        release_too=False, lean_extra=(), shape=True, lean=True, cov_key=None, release_quick_filter=None):
     """lean=False / cov_key=...: used as a *secondary* pass by checks whose main body is elsewhere
     (C05: dealloc layouts along histories)"""
     if lean:
@@ -70,6 +70,20 @@ def run(ctx, module, weights, tags, n_quick=250, len_quick=60, n_thorough=4000, 
             r2 = hist.run_correspondence(ctx, hs, exe2, model)
             results.append(("debug/std-only", exe2, r2))
             configs.append("debug/std only")
+    if release_quick_filter is not None and not ctx.thorough():
+        # quick tier: the release profile on the part of the tour where the two profiles can differ
+        # for this property (debug_asserts / overflow checks vanish)
+        exe3, o3 = common.cargo_build_bin(ctx, "hist", release=True)
+        if exe3:
+            def hint_changes_q(h):
+                return any(op.startswith("iter ") and "," in op.split("hints=")[1].split()[0] for op in h)
+            idx = [i for i, h in enumerate(hs) if release_quick_filter(h) and not hint_changes_q(h)]
+            r3 = hist.run_correspondence(ctx, [hs[i] for i in idx], exe3, model)
+            r3.disagreements = [(idx[hi], k, a, b) for (hi, k, a, b) in r3.disagreements]
+            r3.monitor_fails = [(idx[hi], k, p, m) for (hi, k, p, m) in r3.monitor_fails]
+            r3.crashes = [(idx[hi], rc) for (hi, rc) in r3.crashes]
+            results.append(("release", exe3, r3))
+            configs.append("release (part of the tour: %d histories)" % len(idx))
     if ctx.thorough():
         # release profile: the crate's debug_asserts vanish (IteratorAsExactSizeIterator's size-hint
         # checks, from_arc, into_inner, protected_into_thin, with_arc_mut).  The model's `step` is the
